@@ -14,11 +14,50 @@ for d in sorted(glob.glob(os.path.join(ROOT, "seeded", "*"))):
     m = json.load(open(os.path.join(d, "meta.json")))
     rows.append("| `seeded/%s` | %s | %s | %s |" % (os.path.basename(d), m["breaks_property"], m["needs_to_manifest"].replace("|", "/"), m["checks_run"].replace("|", "/")))
 seeded = "\n".join(rows)
+
+# overview table: budgets from PLAN in ../check (the driver is a python file without suffix)
+import importlib.machinery, importlib.util
+_l = importlib.machinery.SourceFileLoader("vcheck", os.path.join(ROOT, "check"))
+_spec = importlib.util.spec_from_loader("vcheck", _l)
+vcheck = importlib.util.module_from_spec(_spec)
+_l.exec_module(vcheck)
+ORACLE = {
+    "C01": ("dump equality at quiescence + late joiners", "–"),
+    "C02": ("causal model `L ⊆ integrated ⊆ U`, `has_missing` ⇔ a handed form lacks a dependency", "H1, H2"),
+    "C03": ("lock-step reference models", "(H2 for layout hash)"),
+    "C04": ("exactly-once + global pair-order table + visibility vs causal model", "H1, H2"),
+    "C05": ("causal-LWW necessary conditions per key and state", "H1, H2"),
+    "C06": ("relay / exchange payloads vs integrated units; monotone vectors; idempotence", "H1, H2"),
+    "C07": ("v1/v2 followers equal after every transaction; event counts", "H2"),
+    "C08": ("merged vs sequential, diff vs apply, vector-from-update, restriction (cut) oracle", "H1"),
+    "C09": ("re-encode fixpoint + structural dump + effect equality", "H1"),
+    "C10": ("isolated decode under counting allocator; systematic sweep + random mutation", "–"),
+    "C11": ("event-driven shadows vs reads", "–"),
+    "C12": ("mirrored undo/redo stacks with before/after dumps", "H2"),
+    "C13": ("restore vs recorded dump", "H2 (gap-free?)"),
+    "C14": ("resolved index vs expected position", "H2"),
+    "C15": ("gc/no-gc twins, forced GC, rebuild, lock-step sequential oracle", "–"),
+    "C16": ("bit-set model, exhaustive small universe + random + document delete sets + foreign wire payloads", "H2"),
+    "C17": ("pairwise read-path agreement", "H2 (cached lengths)"),
+    "C18": ("peers equal at quiescence; awareness register model", "–"),
+    "C19": ("C-driven vs native twin; same-Doc read and event projection", "(H2 debug only)"),
+    "C20": ("unquote vs visible elements between boundary units", "H2"),
+}
+rows = ["| id | deciding oracle | hooks | jobs: workload quick / thorough cases |", "|---|---|---|---|"]
+for pid in sorted(vcheck.PLAN):
+    jobs = []
+    for (w, a, nq, nt) in vcheck.PLAN[pid]["jobs"]:
+        name = (w + " " + " ".join(x for x in a if not x.startswith("--"))).strip()
+        jobs.append("%s %s / %s" % (name, format(nq, ","), format(nt, ",")))
+    o, h = ORACLE[pid]
+    rows.append("| %s | %s | %s | %s |" % (pid, o, h, "; ".join(jobs)))
+overview = "\n".join(rows)
 def put(s, tag, body):
     a = s.index("<!-- %s_BEGIN -->" % tag) + len("<!-- %s_BEGIN -->" % tag)
     b = s.index("<!-- %s_END -->" % tag)
     return s[:a] + "\n" + body + "\n" + s[b:]
 s = put(s, "FIXED_TABLE", fixed)
 s = put(s, "SEEDED_TABLE", seeded)
+s = put(s, "OVERVIEW_TABLE", overview)
 open(p, "w").write(s)
 print("DESIGN.md tables regenerated: %d fixed, %d seeded" % (len(kf["fixed"]), len(rows) - 2))
